@@ -77,7 +77,7 @@ def register(R):
 
   # ---- the tee that lets assign / filter / sink see each input next to what was computed from it ------------------
   IU = 'ml_metrics/_src/utils/iter_utils.py'
-  R.cls('_TeeIterator', dict(_iterator='iter[obj]', _buffer_size='nat', _buffer='deque[obj]', _exhausted='bool', _returned='obj?'))
+  R.cls('_TeeIterator', dict(_iterator='iter[obj]', _buffer_size='nat', _buffer='bdeque[obj]', _exhausted='bool', _returned='obj?'))
   @R.spec
   def maxlen_of(it, a, k):        # capacity of a deque, -1 when it is unbounded (maxlen=None)
     ml = getattr(a[0], 'maxlen', None)
